@@ -26,6 +26,7 @@ TRIGGER_DOCS = {
     "tasks-nested": "> - [ ] in quote\n>   - [x] nested\n",
     "autolinks": "see www.example.com and https://example.com/a?b=c. also user@example.com and http://x.y)\n",
     "autolinks-edge": "www.a_b.c www.example.com/path(with)parens) xmpp:foo@bar.baz mailto:a@b.c\n",
+    "autolink-schemes-in-blocks": "# Chat at xmpp:foo@bar.baz/txt\n\n- mail mailto:me@example.com now\n\n> see ftp://files.example.com/x and http://example.com.\n",
     "rawhtml": "<script>alert(1)</script> and <title>t</title> <b>ok</b>\n\n<textarea>\nblock\n</textarea>\n",
     "rawhtml-inline": "text <iframe src='x'> and <xmp> and <plaintext> and <STYLE>\n",
     "front-ok": "---\ntitle: doc\nauthor: me\n---\n\n# Heading\n\ntext   \n",
